@@ -3236,6 +3236,25 @@ static size_t ZSTD_fastSequenceLengthSum(ZSTD_Sequence const* seqBuf, size_t seq
     return litLenSum + matchLenSum;
 }
 
+/* ZSTD_seqStore_replayRepcodes() :
+ * Recomputes into @rep the offset history a decoder holds after the sequences of @seqStore, starting from @startRep.
+ * The block compressors below btopt only maintain 2 repeat offsets and leave the 3rd one stale,
+ * which is fine for them, but not for a following block which searches all 3 (external sequences). */
+static void ZSTD_seqStore_replayRepcodes(U32 rep[ZSTD_REP_NUM], const U32 startRep[ZSTD_REP_NUM], const seqStore_t* seqStore)
+{
+    U32 const nbSeq = (U32)(seqStore->sequences - seqStore->sequencesStart);
+    U32 const longLitLenIdx = seqStore->longLengthType == ZSTD_llt_literalLength ? seqStore->longLengthPos : nbSeq;
+    U32 idx;
+    repcodes_t history;
+    ZSTD_memcpy(history.rep, startRep, sizeof(history.rep));
+    for (idx = 0; idx < nbSeq; ++idx) {
+        const seqDef* const seq = seqStore->sequencesStart + idx;
+        U32 const ll0 = (seq->litLength == 0) && (idx != longLitLenIdx);
+        ZSTD_updateRep(history.rep, seq->offBase, ll0);
+    }
+    ZSTD_memcpy(rep, history.rep, sizeof(history.rep));
+}
+
 typedef enum { ZSTDbss_compress, ZSTDbss_noCompress } ZSTD_buildSeqStore_e;
 
 static size_t ZSTD_buildSeqStore(ZSTD_CCtx* zc, const void* src, size_t srcSize)
@@ -3387,6 +3406,8 @@ static size_t ZSTD_buildSeqStore(ZSTD_CCtx* zc, const void* src, size_t srcSize)
                         (unsigned long)nbExternalSeqs
                     );
                     lastLLSize = blockCompressor(ms, &zc->seqStore, zc->blockState.nextCBlock->rep, src, srcSize);
+                    /* the next block may come from the producer again and be searched for all 3 repeat offsets */
+                    ZSTD_seqStore_replayRepcodes(zc->blockState.nextCBlock->rep, zc->blockState.prevCBlock->rep, &zc->seqStore);
             }   }
         } else {   /* not long range mode and no external matchfinder */
             ZSTD_blockCompressor const blockCompressor = ZSTD_selectBlockCompressor(
